@@ -474,7 +474,8 @@ def twogrid_case(rep, Mf, Mc, qd, nsweeps_fine):
     for n in range(Mc):
         defs2[n] = (Wc[n] - z * sum(rv(QDc[n + 1, j + 1]) * Wc[j] for j in range(Mc)) ==
                     u0v + z * sum((rv(Qc[n + 1, j + 1]) - rv(QDc[n + 1, j + 1])) * Uc[j] for j in range(Mc)) - tau[n])
-    if Mf != Mc:
+    # (with a single coarse node the prolongation is a constant shift, which the IE fine sweep annihilates: (Q - QD) 1 = 0 -- no witness possible there)
+    if Mf != Mc and Mc >= 2:
         res, _ = prove(goal, defs2 + box, timeout_ms=60000, name=f'{name}:mutated', kind='vacuity')
         rep.vac(f'{name}:wrong-tau-sign-refuted', res, 'sat')
     rep.sample({'case': name, 'free_variables': 'u0 and all fine node values in [-1,1]', 'tolerance': 1e-9}, limit=6)
